@@ -132,6 +132,17 @@ def judge_fmt(kr, be, op, m, s):
         return
     neg_bit = be == "f64" and int(a, 16) >> 63 == 1
     wn = 0 if w == "-" else int(w)
+    # 0. placement of the fill characters under an explicit alignment, as ordinary string
+    #    formatting places them: '<' all after, '>' all before, '^' floor(n/2) before and the rest after
+    fc0 = chr(fill)
+    if not zero and wn and al in "<>^" and not fc0.isdigit() and fc0 not in "+-." and fc0 not in sym and s.strip(fc0):
+        left = len(s) - len(s.lstrip(fc0))
+        right = len(s) - len(s.rstrip(fc0))
+        want = {"<": (0, left + right), ">": (left + right, 0), "^": ((left + right) // 2, left + right - (left + right) // 2)}[al]
+        if (left, right) != want:
+            kr.violation(be, "fill characters are not placed as ordinary string formatting places them for this alignment", op, s,
+                         f"{want[0]} before and {want[1]} after the text")
+            return
     # 1. remove the padding the flags may have added (the amount text never starts with a
     #    zero that is followed by a digit; a symbol never ends with the fill characters used)
     core = s
